@@ -774,18 +774,25 @@ class CompleteBipartiteGraph(BipartiteGraph):
             L, R)
 
     def has_edge(self, u, v):
-        return (1 <= u <= self.lorder and 1 <= v <= self.rorder)
+        return (isinstance(u, Integral) and isinstance(v, Integral)
+                and 1 <= u <= self.lorder and 1 <= v <= self.rorder)
 
     def add_edge(self, u, v):
-        pass
+        # every edge is there already, but not every pair is an edge
+        if not self.has_edge(u, v):
+            raise ValueError("Invalid choice of vertices")
 
     def number_of_edges(self):
         return self.lorder * self.rorder
 
     def right_neighbors(self, u):
+        if not (isinstance(u, Integral) and 1 <= u <= self.lorder):
+            raise ValueError("Invalid choice of vertex")
         return range(1, self.rorder + 1)
 
     def left_neighbors(self, v):
+        if not (isinstance(v, Integral) and 1 <= v <= self.rorder):
+            raise ValueError("Invalid choice of vertex")
         return range(1, self.lorder + 1)
 
 
